@@ -7,6 +7,10 @@ import Rare.Proofs.C08Range
 import Rare.Proofs.C08Math
 import Rare.Model.Expr.Std
 import Rare.Gen.Tables
+import Rare.Proofs.C08Guards
+import Rare.Proofs.C11
+import Rare.Model.C02
+import Rare.Gen.C08
 /-!
 # C08 — no template and no input line can crash expression compilation or evaluation
 
@@ -21,6 +25,11 @@ safe argument stages the builder neither panics at compile time nor returns a st
   family); `functions_covered` (over the table regenerated from /repo): every Go helper is either in
   that set or in the explicit list of helpers outside the model, whose panic-freedom rests on the
   library they wrap and on the correspondence run only.
+* second half of the file: every size / index guard in front of a panicking Go operation, as
+  regenerated from /repo (`Gen/C08.lean`), admits only safe arguments for all int64 inputs, and equals
+  the guard of the hand model (`repeat_guard_safe`, `substr_bounds_safe`, `select_slices_safe`,
+  `slice_bounds_safe`, `precision_guard_safe`, `divi_guard_safe`, `modi_guard_safe`,
+  `getmatch_bounds_safe`, `compile_escape_safe` and the `…_eq_model` / `…_eq_gen` ties).
 -/
 namespace Rare.C08
 open Rare.Expr
@@ -127,5 +136,419 @@ theorem functions_covered :
 example : ∃ stages errs v, compile safeRegistry true "{sumi {0} x} }{ {nofn 1} \\".toList = .ok (stages, errs) ∧
     (buildKey stages).run ⟨fun _ => [], fun _ => []⟩ = .ok v :=
   std_compile_eval_total true _ _
+
+
+/-! ## Size and index guards, as regenerated from /repo on every run (`Gen/C08.lean`)
+
+Every guard that stands in front of a panicking (or unbounded) Go operation of the expression helpers is
+translated from the Go AST into a Lean definition over `Int` with Go's wrap-around semantics.  The
+theorems below are stated ABOUT THOSE DEFINITIONS: for all int64 inputs the guard admits only arguments
+for which the guarded operation cannot panic (the products and sums in the conclusions are true `Int`
+arithmetic, not wrapped), and each generated definition equals the expression the hand model uses, so
+the model is tied to the code through the kernel as well as through the correspondence run.  A guard
+rewritten in /repo (e.g. `count > max/len` → `count*len > max`) changes the generated definition and
+the corresponding theorem stops checking. -/
+
+/-! ### `{repeat}` : `strings.Repeat(char, count)` behind `count < 0 || (len(char) > 0 && count > maxRepeatBytes/len(char))` -/
+
+/-- The guard of `kfRepeat` passes exactly the counts whose true product with the pattern length is
+    within the cap. -/
+theorem repeat_guard_exact (count len : Int) (hl0 : 0 ≤ len) (hl : len ≤ maxInt64) :
+    Gen.C08.repeatGuard count len = false ↔ (0 ≤ count ∧ count * len ≤ Gen.C08.maxRepeatBytes) := by
+  unfold Gen.C08.repeatGuard Gen.C08.maxRepeatBytes goDiv
+  by_cases hz : len = 0
+  · subst hz; simp
+  · have hpos : 0 < len := by omega
+    have hq : Int.tdiv 1048576 len = 1048576 / len := Int.tdiv_eq_ediv_of_nonneg (by omega)
+    have hq0 : 0 ≤ (1048576 : Int) / len := Int.ediv_nonneg (by omega) (by omega)
+    have hq1 : (1048576 : Int) / len ≤ 1048576 := Int.ediv_le_self _ (by omega)
+    have hw : wrap64 (Int.tdiv 1048576 len) = 1048576 / len := by
+      rw [hq]; exact C11.wrap64_id (by unfold minInt64; omega) (by unfold maxInt64; omega)
+    rw [hw]
+    have key : count ≤ 1048576 / len ↔ count * len ≤ 1048576 := (Int.le_ediv_iff_mul_le hpos)
+    simp only [Bool.or_eq_false_iff, Bool.and_eq_false_iff, decide_eq_false_iff_not, Int.not_lt]
+    constructor
+    · rintro ⟨h1, h2 | h2⟩
+      · omega
+      · exact ⟨h1, key.mp (by omega)⟩
+    · rintro ⟨h1, h2⟩
+      exact ⟨h1, Or.inr (by have := key.mpr h2; omega)⟩
+
+/-- When the guard passes, `strings.Repeat` cannot panic (count ≥ 0, no length overflow) and the
+    output is at most `maxRepeatBytes` long. -/
+theorem repeat_guard_safe (count len : Int) (hl0 : 0 ≤ len) (hl : len ≤ maxInt64)
+    (h : Gen.C08.repeatGuard count len = false) :
+    0 ≤ count ∧ count * len ≤ Gen.C08.maxRepeatBytes ∧ ¬ repeatPanics len count := by
+  obtain ⟨h1, h2⟩ := (repeat_guard_exact count len hl0 hl).mp h
+  refine ⟨h1, h2, ?_⟩
+  unfold repeatPanics
+  rw [Int.mul_comm]
+  unfold Gen.C08.maxRepeatBytes at h2; unfold maxInt64
+  omega
+
+example : Gen.C08.repeatGuard 524288 2 = false ∧ Gen.C08.repeatGuard 524289 2 = true ∧
+    Gen.C08.repeatGuard 4611686018427387904 2 = true ∧ Gen.C08.repeatGuard (-1) 1 = true := by decide
+
+/-- What the run-time closure of `{repeat}` answers for a parsed count, in terms of the generated guard. -/
+def repeatAns (char : Bytes) (count : Int) : Bytes :=
+  if Gen.C08.repeatGuard count char.length then ErrorValue
+  else if char.isEmpty then [] else Funcs.Misc.repeatB char count.toNat
+
+/-- The hand model of `kfRepeat` decides with the generated guard (and the guarded call is the one the
+    code makes). -/
+theorem repeat_eq_model (char : Bytes) (a1 : Stage) :
+    Funcs.Misc.kfRepeat [Stage.lit char, a1] =
+      ok (a1.bind fun c => match atoi c with
+        | none => .ret ErrorNum
+        | some count => .ret (repeatAns char count)) ∧
+    Gen.C08.repeatCalls = ["strings.Repeat(char, count)"] ∧
+    Gen.C08.maxRepeatBytes = Funcs.Misc.maxRepeatBytes := by
+  refine ⟨?_, rfl, rfl⟩
+  unfold Funcs.Misc.kfRepeat
+  simp only [Stage.lit, Comp.probe, Comp.probeN, show ((0:Nat) == 0) = true from rfl]
+  congr 1
+  show a1.bind _ = a1.bind _
+  congr 1
+  funext c
+  cases atoi c with
+  | none => rfl
+  | some count =>
+    simp only [repeatAns, Gen.C08.repeatGuard, Gen.C08.maxRepeatBytes, Funcs.Misc.maxRepeatBytes, goDiv]
+    have hw : wrap64 (Int.tdiv 1048576 (char.length : Int)) = Int.tdiv 1048576 (char.length : Int) := by
+      rw [Int.tdiv_eq_ediv_of_nonneg (by omega)]
+      have h0 : 0 ≤ (1048576 : Int) / (char.length : Int) := Int.ediv_nonneg (by omega) (by omega)
+      have h1 : (1048576 : Int) / (char.length : Int) ≤ 1048576 := Int.ediv_le_self _ (by omega)
+      unfold wrap64; omega
+    simp only [hw]
+    by_cases h1 : count < 0 <;> by_cases h2 : char.length > 0 <;>
+      by_cases h3 : count > Int.tdiv 1048576 (char.length : Int) <;>
+      simp [h1, h2, h3, pure] <;> split <;> rfl
+
+/-! ### `{substr}` : `s[left:right]` behind the clamping statements -/
+
+/-- The bounds computed by the code are the bounds of the hand model. -/
+theorem substr_eq_model (lenS left length : Int) :
+    Gen.C08.substrBounds lenS left length = Funcs.Strings.substrIdx lenS left length ∧
+    Gen.C08.substrExits = ["lenS == 0", "err1 != nil || err2 != nil"] := by
+  refine ⟨?_, rfl⟩
+  unfold Gen.C08.substrBounds Funcs.Strings.substrIdx
+  simp only []
+  by_cases h1 : length < 0 <;> by_cases h2 : left < 0 <;> by_cases h3 : wrap64 (left + lenS) < 0 <;>
+    by_cases h4 : left > lenS <;> simp [h1, h2, h3, h4]
+
+/-- `0 ≤ lo ≤ hi ≤ len(s)` for every string length and every pair of int64 arguments: the slice
+    expression of `kfSubstr` can never be out of range. -/
+theorem substr_bounds_safe (lenS left length : Int) (h0 : 0 ≤ lenS) (hS : lenS ≤ maxInt64)
+    (hl : inInt64 left = true) (hn : inInt64 length = true) :
+    0 ≤ (Gen.C08.substrBounds lenS left length).1 ∧
+    (Gen.C08.substrBounds lenS left length).1 ≤ (Gen.C08.substrBounds lenS left length).2 ∧
+    (Gen.C08.substrBounds lenS left length).2 ≤ lenS := by
+  rw [(substr_eq_model lenS left length).1, C11.substrIdx_spec lenS left length h0 hS hl hn]
+  simp only []
+  split <;> omega
+
+example : Gen.C08.substrBounds 3 1 9223372036854775807 = (1, 3) ∧
+    Gen.C08.substrBounds 3 (-9223372036854775808) 2 = (0, 2) ∧
+    Gen.C08.substrBounds 3 9223372036854775807 9223372036854775807 = (3, 3) := by decide
+
+/-! ### `{select}` : `s[wordStart:i]`, `s[wordStart:]` inside the rune loop of `selectField` -/
+
+/-- The slice bounds of `selectField` are loop variables (`wordStart` is only ever assigned the loop
+    index); with those assignments `wordStart ≤ i ≤ len(s)` is an invariant, i.e. the loop with Go's
+    bounds checks made explicit never fails and is the model's loop. -/
+theorem select_slices_safe (s : Bytes) (idx : Int) :
+    Gen.C08.selectFieldShape =
+      ["wordStart := 0", "wordStart = i", "s[wordStart:i]", "s[wordStart:]", "range i, c over s"] ∧
+    Funcs.Strings.selLoopC s idx s 0 {} = .ok (Funcs.Strings.selectField s idx) :=
+  ⟨rfl, Funcs.Strings.selLoopC_ok s idx s 0 {} (Nat.le_refl _) (by simp)⟩
+
+/-! ### `{@slice}` / `{@select}` : index normalisation -/
+
+theorem slice_start_eq_model (start : Int) (s : Bytes) :
+    Gen.C08.arraySliceStart start (Funcs.Range.countSep s) = Funcs.Range.sliceStart start s := by
+  unfold Gen.C08.arraySliceStart Funcs.Range.sliceStart
+  simp only []
+  by_cases h1 : start < 0 <;> by_cases h2 : wrap64 (start + wrap64 (Funcs.Range.countSep s + 1)) < 0 <;> simp [h1, h2]
+
+/-- The start of `@slice` is computed without wrap-around and is never negative (`cnt` is a
+    `strings.Count`, so `0 ≤ cnt < MaxInt64`). -/
+theorem slice_bounds_safe (start cnt : Int) (hs : inInt64 start = true) (h0 : 0 ≤ cnt) (h1 : cnt < maxInt64) :
+    Gen.C08.arraySliceStart start cnt = (if start < 0 then max (start + (cnt + 1)) 0 else start) ∧
+    0 ≤ Gen.C08.arraySliceStart start cnt := by
+  rw [C11.inInt64_iff] at hs
+  unfold minInt64 at *; unfold maxInt64 at *
+  unfold Gen.C08.arraySliceStart wrap64
+  simp only []
+  constructor
+  · split <;> split <;> simp_all <;> omega
+  · split <;> split <;> simp_all <;> omega
+
+/-- The loop guard of `@slice` compares the true difference `i - realStart` (a counter and a start ≥ 0
+    cannot wrap), and it is the guard expression of the model. -/
+theorem slice_guard_exact (len i rs : Int) (hi0 : 0 ≤ i) (hi : i ≤ maxInt64) (hr0 : 0 ≤ rs) (hr : rs ≤ maxInt64) :
+    Gen.C08.arraySliceGuard len i rs = (decide (len < 0) || decide (i - rs < len)) ∧
+    Gen.C08.arraySliceGuard len i rs = (decide (len < 0) || decide (wrap64 (i - rs) < len)) := by
+  refine ⟨?_, rfl⟩
+  unfold maxInt64 at *
+  unfold Gen.C08.arraySliceGuard wrap64
+  have : (i - rs + 9223372036854775808) % 18446744073709551616 - 9223372036854775808 = i - rs := by omega
+  rw [this]
+
+theorem select_index_eq_model (index : Int) (s : Bytes) :
+    Gen.C08.arraySelectIndex index (Funcs.Range.countSep s) = Funcs.Range.selectIndex index s := by
+  unfold Gen.C08.arraySelectIndex Funcs.Range.selectIndex
+  simp only []
+  by_cases h1 : index < 0 <;> simp [h1]
+
+/-- A negative `@select` index is counted from the end with true arithmetic (no wrap-around). -/
+theorem select_index_exact (index cnt : Int) (hs : inInt64 index = true) (h0 : 0 ≤ cnt) (h1 : cnt < maxInt64) :
+    Gen.C08.arraySelectIndex index cnt = (if index < 0 then index + (cnt + 1) else index) := by
+  rw [C11.inInt64_iff] at hs
+  unfold minInt64 at *; unfold maxInt64 at *
+  unfold Gen.C08.arraySelectIndex wrap64
+  simp only []
+  split <;> simp_all <;> omega
+
+example : Gen.C08.arraySliceStart (-9223372036854775808) 2 = 0 ∧ Gen.C08.arraySliceStart (-2) 2 = 1 ∧
+    Gen.C08.arraySelectIndex (-1) 2 = 2 ∧ Gen.C08.arraySliceGuard 9223372036854775807 1 1 = true := by decide
+
+/-! ### precision caps (`strconv.FormatFloat` / `AppendFloat` allocate `precision` digits) -/
+
+/-- A constant precision that passes any of the five guards is at most 1024. -/
+theorem precision_guard_safe (p : Int) :
+    (Gen.C08.roundPrecisionGuard p = false → p ≤ 1024) ∧
+    (Gen.C08.percentPrecisionGuard p = false → p ≤ 1024) ∧
+    (Gen.C08.bytesizePrecisionGuard p = false → p ≤ 1024) ∧
+    (Gen.C08.bytesizesiPrecisionGuard p = false → p ≤ 1024) ∧
+    (Gen.C08.downscalePrecisionGuard p = false → p ≤ 1024) := by
+  unfold Gen.C08.roundPrecisionGuard Gen.C08.percentPrecisionGuard Gen.C08.bytesizePrecisionGuard
+    Gen.C08.bytesizesiPrecisionGuard Gen.C08.downscalePrecisionGuard Gen.C08.maxPrecision
+  simp only [decide_eq_false_iff_not, Int.not_lt]
+  omega
+
+/-- The caps are the ones the models of `round` / `percent` / `bytesize…` / `downscale` use, and the
+    guarded variable is the one handed to the formatting call. -/
+theorem precision_eq_model (p : Int) :
+    Gen.C08.maxPrecision = Funcs.Arith.maxPrecision ∧
+    Gen.C08.roundPrecisionGuard p = decide (p > Funcs.Arith.maxPrecision) ∧
+    Gen.C08.percentPrecisionGuard p = decide (p > Funcs.Arith.maxPrecision) ∧
+    Gen.C08.bytesizePrecisionGuard p = decide (p > 1024) ∧
+    Gen.C08.bytesizesiPrecisionGuard p = decide (p > 1024) ∧
+    Gen.C08.downscalePrecisionGuard p = decide (p > 1024) ∧
+    Gen.C08.precisionUses = ["round: precision -> strconv.FormatFloat", "percent: decimals -> strconv.AppendFloat",
+      "bytesize: precision -> humanize.AlwaysByteSize", "bytesizesi: precision -> humanize.AlwaysByteSizeSi",
+      "downscale: precision -> humanize.AlwaysDownscale"] := ⟨rfl, rfl, rfl, rfl, rfl, rfl, rfl⟩
+
+/-! ### `divi` / `modi` : zero-divisor guards -/
+
+/-- When the guard of `divi` passes the divisor is non-zero (no "integer divide by zero" panic); the
+    quotient is an int64; `MinInt64 / -1` does not trap in Go, it wraps to `MinInt64`. -/
+theorem divi_guard_safe (a b : Int) (h : Gen.C08.diviGuard a b = false) :
+    b ≠ 0 ∧ inInt64 (Gen.C08.diviVal a b) = true ∧ Gen.C08.diviVal minInt64 (-1) = minInt64 := by
+  refine ⟨by simpa [Gen.C08.diviGuard] using h, wrap64_inInt64 _, by decide⟩
+
+/-- Same for `modi`; `MinInt64 % -1` is 0. -/
+theorem modi_guard_safe (a b : Int) (ha : inInt64 a = true) (h : Gen.C08.modiGuard a b = false) :
+    b ≠ 0 ∧ inInt64 (Gen.C08.modiVal a b) = true ∧ Gen.C08.modiVal minInt64 (-1) = 0 := by
+  refine ⟨by simpa [Gen.C08.modiGuard] using h, tmod_inInt64 a b ha, by decide⟩
+
+/-- The checked operations of the hand model are the generated guard + value, and
+    `arithmaticHelperiChecked` turns a refusal into `<VALUE>` before using the value. -/
+theorem divi_eq_model (a b : Int) :
+    Funcs.Arith.opDiv a b = (if Gen.C08.diviGuard a b then none else some (Gen.C08.diviVal a b)) ∧
+    Funcs.Arith.opMod a b = (if Gen.C08.modiGuard a b then none else some (Gen.C08.modiVal a b)) ∧
+    Gen.C08.checkedHelperShape = ["final, ok := typedArgs[0](context)", "final, ok = equation(final, val)",
+      "if !ok return ErrorValue"] := by
+  refine ⟨?_, ?_, rfl⟩
+  · unfold Funcs.Arith.opDiv Gen.C08.diviGuard Gen.C08.diviVal
+    by_cases h : b = 0 <;> simp [h]
+  · unfold Funcs.Arith.opMod Gen.C08.modiGuard Gen.C08.modiVal
+    by_cases h : b = 0 <;> simp [h]
+
+example : Gen.C08.diviGuard 1 0 = true ∧ Gen.C08.diviGuard minInt64 (-1) = false ∧ Gen.C08.diviVal 7 (-2) = -3 ∧
+    Gen.C08.modiVal (-7) 2 = -1 := by decide
+
+/-! ### `GetMatch` implementations : sub-contexts and match contexts -/
+
+/-- `SliceSpaceExpressionContext.GetMatch` without wrap-around: what the guard chain computes and
+    which entries of `indices` it reads. -/
+theorem slicespace_char (idx n : Int) (indices : Int → Int) (hidx : inInt64 idx = true) (hn : n ≤ maxInt64) :
+    Gen.C08.sliceSpaceGetMatch idx n indices =
+      (if idx < 0 ∨ 2 * idx + 1 ≥ n then .empty
+       else if indices (2 * idx) < 0 ∨ indices (2 * idx + 1) < 0 then .empty
+       else .slice (indices (2 * idx)) (indices (2 * idx + 1))) ∧
+    Gen.C08.sliceSpaceGetMatchReads idx n indices =
+      (if idx < 0 ∨ 2 * idx + 1 ≥ n then [] else [2 * idx, 2 * idx + 1]) := by
+  rw [C11.inInt64_iff] at hidx
+  unfold Gen.C08.sliceSpaceGetMatch Gen.C08.sliceSpaceGetMatchReads
+  simp only []
+  by_cases h0 : idx < 0
+  · simp [h0]
+  · rcases wrap_double idx (by omega) hidx.2 with ⟨h1, h2, h3⟩ | ⟨h1, h2⟩
+    · rw [h3, h2]
+      have : ¬ (2 * idx < 0) := by omega
+      by_cases h4 : 2 * idx + 1 ≥ n
+      · simp [h0, this, h4]
+      · have h4' : ¬ (n ≤ 2 * idx + 1) := by omega
+        simp [h0, this, h4']
+    · have : 2 * idx + 1 ≥ n := by omega
+      simp [h0, h2, this]
+
+/-- Every table read of the four `GetMatch` implementations (`subContext`, `lazySubContext`,
+    `KeyBuilderContextArray`, `SliceSpaceExpressionContext`) happens at an index inside the table, for
+    every int64 index and every table length. -/
+theorem getmatch_bounds_safe :
+    (∀ idx n : Int, ∀ i ∈ Gen.C08.subContextGetMatchReads idx n, 0 ≤ i ∧ i < n) ∧
+    (∀ idx n : Int, ∀ i ∈ Gen.C08.lazySubContextGetMatchReads idx n, 0 ≤ i ∧ i < n) ∧
+    (∀ idx n : Int, ∀ i ∈ Gen.C08.contextArrayGetMatchReads idx n, 0 ≤ i ∧ i < n) ∧
+    (∀ (idx n : Int) (indices : Int → Int), inInt64 idx = true → n ≤ maxInt64 →
+      ∀ i ∈ Gen.C08.sliceSpaceGetMatchReads idx n indices, 0 ≤ i ∧ i < n) := by
+  refine ⟨?_, ?_, ?_, ?_⟩
+  · intro idx n i hi
+    unfold Gen.C08.subContextGetMatchReads at hi
+    split at hi
+    · simp at hi
+    · split at hi
+      · simp at hi; subst hi; simp_all
+      · simp at hi
+  · intro idx n i hi
+    unfold Gen.C08.lazySubContextGetMatchReads at hi
+    split at hi
+    · simp at hi
+    · split at hi
+      · simp at hi
+      · simp at hi; subst hi; simp_all
+  · intro idx n i hi
+    unfold Gen.C08.contextArrayGetMatchReads at hi
+    split at hi
+    · simp at hi; subst hi; simp_all
+    · simp at hi
+  · intro idx n indices hidx hn i hi
+    rw [(slicespace_char idx n indices hidx hn).2] at hi
+    split at hi
+    · simp at hi
+    · simp at hi; omega
+
+/-- An element answered by a chain is the requested one, of the table measured, and inside it. -/
+theorem getmatch_index_safe (idx n m i : Int) :
+    (Gen.C08.subContextGetMatch idx n = .index m i → m = n ∧ i = idx ∧ 0 ≤ i ∧ i < n) ∧
+    (Gen.C08.lazySubContextGetMatch idx n = .index m i → m = n ∧ i = idx ∧ 0 ≤ i ∧ i < n) ∧
+    (Gen.C08.contextArrayGetMatch idx n = .index m i → m = n ∧ i = idx ∧ 0 ≤ i ∧ i < n) := by
+  unfold Gen.C08.subContextGetMatch Gen.C08.lazySubContextGetMatch Gen.C08.contextArrayGetMatch
+  refine ⟨?_, ?_, ?_⟩
+  · intro h; split at h
+    · cases h
+    · split at h
+      · cases h; simp_all
+      · cases h
+  · intro h; split at h
+    · cases h
+    · split at h
+      · cases h
+      · cases h; simp_all
+  · intro h; split at h
+    · cases h; simp_all
+    · cases h
+
+example : Gen.C08.subContextGetMatch 1 2 = .index 2 1 ∧ Gen.C08.subContextGetMatch 2 2 = .empty ∧
+    Gen.C08.subContextGetMatch (-1) 2 = .passThrough (-1) ∧
+    Gen.C08.lazySubContextGetMatch 9223372036854775807 3 = .empty ∧
+    Gen.C08.contextArrayGetMatch (-9223372036854775808) 3 = .empty ∧
+    Gen.C08.sliceSpaceGetMatchReads 4611686018427387904 6 (fun _ => 0) = [] ∧
+    Gen.C08.sliceSpaceGetMatchReads 2 6 (fun _ => 0) = [4, 5] := by decide
+
+/-- The model of `subContext` (`Comp.withSub`, used by `@map` / `@reduce` / `@filter` / `@for`) answers a
+    look-up exactly as the generated chain says (`len(s.vals)` is the array length of the field). -/
+theorem withSub_eq_gen {α : Type} (i : Int) (k : Bytes → Comp α) (v0 v1 : Bytes) :
+    (Comp.getMatch i k).withSub v0 v1 =
+      (match Gen.C08.subContextGetMatch i Gen.C08.subContextValsLen with
+       | .passThrough j => .getMatch j fun b => (k b).withSub v0 v1
+       | .index _ j => (k ([v0, v1].getD j.toNat [])).withSub v0 v1
+       | .slice _ _ => .panic "not a sub-context action"
+       | .empty => (k []).withSub v0 v1) := by
+  unfold Gen.C08.subContextGetMatch Gen.C08.subContextValsLen
+  simp only [Comp.withSub]
+  by_cases h0 : i < 0
+  · simp [h0]
+  · by_cases h1 : i = 0
+    · subst h1; simp
+    · by_cases h2 : i = 1
+      · subst h2; simp
+      · have : ¬ i < 2 := by omega
+        simp [h0, h1, h2, this]
+
+/-- The model of `lazySubContext` (`C10.withArgs`, user functions) answers a look-up exactly as the
+    generated chain says. -/
+theorem withArgs_eq_gen {α : Type} (args : List Stage) (i : Int) (k : Bytes → Comp α) :
+    C10.withArgs args (Comp.getMatch i k) =
+      (match Gen.C08.lazySubContextGetMatch i args.length with
+       | .passThrough j => .getMatch j fun b => C10.withArgs args (k b)
+       | .index _ j => (args.getD j.toNat (.ret [])).bind fun v => C10.withArgs args (k v)
+       | .slice _ _ => .panic "not a sub-context action"
+       | .empty => C10.withArgs args (k [])) := by
+  unfold Gen.C08.lazySubContextGetMatch
+  simp only [C10.withArgs]
+  by_cases h0 : i < 0
+  · simp [h0]
+  · by_cases h1 : i ≥ args.length <;> simp [h0, h1]
+
+/-- The model of `SliceSpaceExpressionContext.GetMatch` (`C02.getMatch`) is the generated chain. -/
+theorem c02_getMatch_eq_gen (line : Bytes) (indices : List Int) (idx : Int) (hidx : inInt64 idx = true)
+    (hn : (indices.length : Int) ≤ maxInt64) :
+    C02.getMatch line indices idx =
+      (match Gen.C08.sliceSpaceGetMatch idx indices.length (fun i => indices.getD i.toNat 0) with
+       | .slice lo hi => C02.goSlice line lo hi
+       | .empty => .ok []
+       | _ => .error "not a match-context action") := by
+  rw [(slicespace_char idx indices.length _ hidx hn).1]
+  rw [C11.inInt64_iff] at hidx
+  unfold C02.getMatch
+  simp only []
+  by_cases h0 : idx < 0
+  · simp [h0]
+  · rcases wrap_double idx (by omega) hidx.2 with ⟨h1, h2, h3⟩ | ⟨h1, h2⟩
+    · rw [h2]
+      have e3 : (2 * idx).toNat + 1 = (2 * idx + 1).toNat := by omega
+      rw [e3]
+      have : ¬ (2 * idx < 0) := by omega
+      by_cases h4 : 2 * idx + 1 ≥ indices.length
+      · simp [h0, this, h4]
+      · simp only [h0, this, h4, false_or, if_false]
+        split <;> rfl
+    · have : 2 * idx + 1 ≥ indices.length := by omega
+      simp [h0, h2, this]
+
+/-! ### `Compile` : the escape look-ahead `r == '\\' && i+1 < len(runes)` in front of `i++; runes[i]` -/
+
+/-- When the look-ahead holds, `runes[i+1]` exists (the former `Compile("abc\\")` index panic). -/
+theorem compile_escape_safe (i n : Int) (h0 : 0 ≤ i) (hi : i < n) (hn : n ≤ maxInt64)
+    (h : Gen.C08.compileEscapeGuard i n = true) : 0 ≤ i + 1 ∧ i + 1 < n := by
+  unfold maxInt64 at *
+  unfold Gen.C08.compileEscapeGuard wrap64 at h
+  simp only [decide_eq_true_eq] at h
+  omega
+
+/-- The guard holds exactly when a rune follows the backslash – which is what the model's pattern
+    match on the rest of the rune list tests; the guarded statements are `i++; …runes[i]…`. -/
+theorem compile_escape_eq_model (all : List Char) (i : Nat) (hi : i < all.length) (hn : (all.length : Int) ≤ maxInt64) :
+    Gen.C08.compileEscapeGuard i all.length = !(all.drop (i + 1)).isEmpty ∧
+    Gen.C08.compileEscapeSteps = ["i++", "sb.WriteRune(unescape(runes[i]))"] ∧
+    Gen.C08.compileRuneAccesses = ["runes[i]", "runes[i]", "runes[startStatement : i+1]", "runes[startStatement:]"] := by
+  refine ⟨?_, rfl, rfl⟩
+  unfold maxInt64 at *
+  unfold Gen.C08.compileEscapeGuard wrap64
+  have e : ((i : Int) + 1 + 9223372036854775808) % 18446744073709551616 - 9223372036854775808 = i + 1 := by omega
+  rw [e]
+  by_cases h : i + 1 < all.length
+  · have : all.drop (i + 1) ≠ [] := by
+      intro hd; have := congrArg List.length hd; simp at this; omega
+    have h' : ((i : Int) + 1 < all.length) := by omega
+    simp [h', this]
+  · have : all.drop (i + 1) = [] := List.drop_eq_nil_of_le (by omega)
+    have h' : ¬ ((i : Int) + 1 < all.length) := by omega
+    simp [h', this]
+
+example : Gen.C08.compileEscapeGuard 3 4 = false ∧ Gen.C08.compileEscapeGuard 2 4 = true := by decide
+
 
 end Rare.C08
